@@ -479,6 +479,17 @@ def trDim (ne : NumEnv) (h : Hp) (v : Val) : Slice :=
 def tr (ne : NumEnv) (d : Decl) (x : Config) : List Slice :=
   List.zipWith (trDim ne) d.hps x
 
+/-- `RandomSearch._ask` / `RegularizedEvolution._ask` / the ConfigSpace branch of `Space.rvs`:
+a ConfigSpace configuration holds values for its active hyperparameters only (`none` = absent);
+the absent ones get `get_inactive_value_of_hyperparameter` (lower bound / first choice) -/
+def fillInactive : List Hp → List (Option Val) → Option Config
+  | [], [] => some []
+  | h :: hs, v :: vs =>
+    match (match v with | some w => some w | none => canon h.dim), fillInactive hs vs with
+    | some w, some ws => some (w :: ws)
+    | _, _ => none
+  | _, _ => none
+
 /-- `CBO._to_dict` -/
 def toDict (d : Decl) (x : Config) : List (String × Val) :=
   List.zip (d.hps.map (·.name)) x
